@@ -13,7 +13,7 @@
     call is structural.  The code decides "leaf" by [vl == vr]; the model by the
     shape constructor [L]; the two agree because the shape is built over the same
     ranges ([m = (vl+vr)/2], left [vl..m], right [m+1..vr]) the code recurses
-    over (lemma [Rep_length]/[build_Rep] in the proofs).
+    over (theorems [c01_rep_leaf_iff] and [c01_build_correct]).
 
     Order of effects transcribed from the code:
       set_internal     leaf: overwrite; else push_at, descend ([ind <= m]), merge_at
